@@ -111,6 +111,7 @@ class UBody:
     def __init__(self, body, f, FT):
         self.body, self.b, self.f, self.FT = body, body.d, f, FT
         self.unit = {}
+        self.cmp_units = {}
         self.errors = []
         self.d = Dfx(body)
         self.names = body.param_names()
@@ -217,6 +218,9 @@ class UBody:
             if b == "CONST":
                 return a
             if a is None or b is None:
+                if self.generic_layer and (a or b) in (ROW, COL):
+                    # the generic algorithm layers have no cell arithmetic: a counter advanced by a ROW distance is a ROW position
+                    return a or b
                 return (a or b) if (a == CELL or b == CELL) else None
             if {a, b} == {ROW, COL}:
                 self.err("u3", "%s%s%s" % (a, "+" if op.startswith("Add") else "-", b), "adds/subtracts a ROW quantity and a COL quantity: %s %s %s" % (self.sh(lo), op, self.sh(ro)), span)
@@ -236,6 +240,22 @@ class UBody:
             self.err("u2", "%s*%s" % (a, b), "multiplies %s by %s (a cell offset is ROW*COL): %s * %s" % (a, b, self.sh(lo), self.sh(ro)), span)
             return None
         if op in ("Lt", "Le", "Gt", "Ge"):
+            # u10: a unit-less counter that is ordered against a ROW count in one place and a COL count in another
+            for mine, other, o_ in ((a, b, lo), (b, a, ro)):
+                if mine is None and other in (ROW, COL) and self.generic_layer and o_["k"] in ("copy", "move") and not o_["p"]["proj"] and o_["p"]["local"] > self.b["arg_count"]:
+                    l_ = o_["p"]["local"]
+                    for _ in range(3):      # the comparison reads a temporary copy of the named variable
+                        ds_ = self.d.single_def(l_)
+                        if ds_ and ds_[0] == "stmt" and ds_[3]["rv"]["k"] == "use" and ds_[3]["rv"]["o"]["k"] in ("copy", "move") and not ds_[3]["rv"]["o"]["p"]["proj"]:
+                            l_ = ds_[3]["rv"]["o"]["p"]["local"]
+                        else:
+                            break
+                    if not self.body.debug_name(l_):
+                        continue
+                    seen_ = self.cmp_units.setdefault(l_, {})
+                    seen_.setdefault(other, span)
+                    if len(seen_) == 2:
+                        self.err("u10", "%s:ROW+COL" % self.body.debug_name(l_), "the counter `%s` is ordered against a ROW quantity in one place and a COL quantity in another (here: %s %s %s)" % (self.body.debug_name(l_), self.sh(lo), op, self.sh(ro)), span)
             if a in (ROW, COL) and b in (ROW, COL) and a != b:
                 self.err("u1", "%s%s%s" % (a, {"Lt": "<", "Le": "<=", "Gt": ">", "Ge": ">="}[op], b), "ordering comparison of a %s with a %s: %s %s %s" % (a, b, self.sh(lo), op, self.sh(ro)), span)
             return None
